@@ -51,4 +51,12 @@ func main() {
 		fmt.Println(o.Store(name, raw{1, 2, 3}), o.Store(name, raw{1, 2}), o.Store(name, &once{left: []byte{9, 9, 9, 9}}), o.Store(name, &once{left: []byte{9}}))
 	}
 	fmt.Println(o.StoreBlob("b", []byte{1, 2, 3, 4}), o.StoreBlob("x", nil))
+	for _, n := range []int{7, -1, 4294967296 + 5} {
+		b := sample.NewBox([]byte{1, 2}, n)
+		fmt.Println(b.All(), b.Skip(1))
+		e1 := b.Add([]byte{9, 8, 7})
+		fmt.Println(e(e1), b.Dir.VirtualAddress, b.Dir.Size, b.All(), b.Skip(1), b.Skip(0), b.Skip(5))
+		e1 = b.Add([]byte{6})
+		fmt.Println(e(e1), b.Dir.VirtualAddress, b.Dir.Size, b.All(), b.DrainCopy(), b.DrainCopy())
+	}
 }
